@@ -65,6 +65,7 @@ class _Monitor(threading.Thread):
         super().__init__(daemon=True, name="verif-watchdog")
         self.state = None          # None (disarmed) or (generation, deadline)
         self.gen = 0
+        self.idle_ticks = 0        # incremented whenever the monitor observes the disarmed state
         self.target = threading.main_thread().ident
         self.pid = os.getpid()
 
@@ -77,6 +78,7 @@ class _Monitor(threading.Thread):
             time.sleep(0.01)
             st = self.state
             if st is None:
+                self.idle_ticks += 1
                 continue
             if st[0] != last_gen:
                 last_gen, next_fire = st
@@ -100,13 +102,20 @@ def _monitor():
 def _watchdog(seconds):
     m = _monitor()
     m.gen += 1
-    m.state = (m.gen, time.monotonic() + seconds)
+    deadline = time.monotonic() + seconds
+    m.state = (m.gen, deadline)
     try:
         yield
     finally:
         while True:
             try:
                 m.state = None
+                if time.monotonic() >= deadline - 0.1:
+                    # the monitor may be between "still armed?" and the injection: wait until it has seen
+                    # the disarmed state once, so that no injection can arrive after we leave
+                    t = m.idle_ticks
+                    while m.idle_ticks == t and m.is_alive():
+                        time.sleep(0.002)
                 ctypes.pythonapi.PyThreadState_SetAsyncExc(ctypes.c_ulong(m.target), None)   # drop a pending one
                 break
             except core.Watchdog:
